@@ -19,7 +19,7 @@ from common import (CACHE, ToolError, build_harness, load_known, log, repo_state
 
 PROP_GROUPS = {
     "C01": ["store"], "C02": ["conc"], "C03": ["conc"], "C05": ["store"], "C06": ["store", "conc", "http"],
-    "C07": ["store"], "C08": ["store"], "C09": ["store", "conc"], "C10": ["store", "http", "conc"], "C11": ["conc"], "C12": ["codec", "store", "http"],
+    "C07": ["store"], "C08": ["store"], "C09": ["store", "conc"], "C10": ["store", "http", "conc"], "C11": ["conc", "store"], "C12": ["codec", "store", "http"],
     "C13": ["http"], "C20": ["store", "http"],
 }
 
